@@ -450,6 +450,17 @@ theorem C10_ts_linearizable {σ O R : Type} (B : Obj σ O R) (x0 : σ) (progs : 
     | true => rfl
     | false => rw [hw] at this; simp at this; omega
 
+/-- **The order of the log respects real time**: if a completed call returned before another completed call (of any
+goroutine) was invoked, its linearization stamp is the smaller one — its entry comes first in the (stamp-sorted) log. -/
+theorem C10_ts_real_time_order {σ O R : Type} (B : Obj σ O R) (x0 : σ) (progs : List (List O))
+    (c : Cfg (Sh σ O R) (Th σ O R)) (hr : Reach (tsSys B) (Sh.start x0, progs.map Th.start) c)
+    (t u : Th σ O R) (ht : t ∈ c.2) (hu : u ∈ c.2) (a b : Ret O R) (ha : a ∈ t.rets) (hb : b ∈ u.rets)
+    (hab : a.ret < b.inv) : a.lin < b.lin := by
+  obtain ⟨_, _, h, _⟩ := C10_ts_linearizable B x0 progs c hr
+  have h1 := (h t ht a ha).2.2
+  have h2 := (h u hu b hb).2.1
+  omega
+
 /-- **The log is exactly the calls, each once**: in every reachable configuration the linearization stamps held by the
 goroutines — one per call that has passed its linearization point, in progress or completed (`thStamps`) — are a
 permutation of the stamps of the log, and they are pairwise distinct. With `C10_ts_linearizable` (each completed call's
@@ -591,18 +602,31 @@ theorem C10_lincheck_example :
        ⟨3, 5, .vals false, .l [1, 2, 3, 11]⟩, ⟨7, 8, .vals false, .l [1, 2, 3, 11, 12]⟩] = false := by
   decide
 
-/-- The hypothesis of `C10_ts_linearizable` / `C10_ts_list_is_sequential` is satisfiable by a configuration in which
-calls really overlap: three goroutines (`PushBack 7; Len`, `Values; PushFront 8`, `PushBackList A A`) under a schedule
-in which the reader is inside its section while both writers have announced `Lock()`. -/
-example : Reach (tsSys listObj)
+/-- A run of the protocol in which calls really overlap: three goroutines (`PushBack 7; Len`, `Values; PushFront 8`,
+`PushBackList A A`); the reader is inside its section while both writers have announced `Lock()`. -/
+def tsDemo : Cfg (Sh St LOp LOut) (Th St LOp LOut) :=
+  runSched (tsSys listObj)
     (Sh.start init, [[LOp.wr (.pushBack false 7), .len false], [.vals false, .wr (.pushFront false 8)],
       [.wr (.pushBackList false false)]].map Th.start)
-    (runSched (tsSys listObj)
-      (Sh.start init, [[LOp.wr (.pushBack false 7), .len false], [.vals false, .wr (.pushFront false 8)],
-        [.wr (.pushBackList false false)]].map Th.start)
-      [(1, 0), (0, 0), (2, 0), (1, 0), (1, 0), (1, 0), (0, 0), (0, 0), (0, 0), (0, 0), (2, 0), (2, 0), (2, 0), (2, 0),
-       (1, 0), (1, 0), (0, 0)]) :=
+    [(1, 0), (0, 0), (2, 0), (1, 0), (1, 0), (1, 0), (0, 0), (0, 0), (0, 0), (0, 0), (2, 0), (2, 0), (2, 0), (2, 0),
+     (1, 0), (1, 0), (0, 0)]
+
+/-- The hypothesis of `C10_ts_linearizable` / `C10_ts_list_is_sequential` / `C10_ts_real_time_order` is satisfiable:
+`tsDemo` is reachable. -/
+example : Reach (tsSys listObj)
+    (Sh.start init, [[LOp.wr (.pushBack false 7), .len false], [.vals false, .wr (.pushFront false 8)],
+      [.wr (.pushBackList false false)]].map Th.start) tsDemo :=
   runSched_reach _ _ _
+
+/-- … and what the theorems say about it, computed: the three calls were invoked at 1, 0, 2, took effect at 5, 3, 7 and
+returned at 6, 4, 8 (so they overlap pairwise); the log is sorted by those stamps; the reader saw the empty list, the
+`PushBack` got handle 3, and the list ends as `[7 7]` (the self-push came last). -/
+example :
+    tsDemo.1.log.map (·.stamp) = [3, 5, 7] ∧
+    tsDemo.2.map (fun t => t.rets.map (fun r => (r.inv, r.lin, r.ret))) = [[(1, 5, 6)], [(0, 3, 4)], [(2, 7, 8)]] ∧
+    tsDemo.1.log.map (·.res) = [.l [], .out (.handle 3), .out .ok] ∧
+    values tsDemo.1.obj false = [7, 7] := by
+  decide
 
 /-- `NewList(lockFree ...bool)`: the condition of the regenerated body, `len(lockFree) > 0 && lockFree[0]`, as a
 function of the argument list. -/
